@@ -35,7 +35,33 @@ fn stream<T: Smp>(run: &mut Runner<T>, n_in: u64, sched: Option<&mut Rng>, max_c
                 run.step(&Op::SetChunk(n));
             }
         }
-        let so = run.step(&op);
+        let so = match crate::mon::guarded(|| run.step(&op)) {
+            Ok(so) => so,
+            Err(p) => return Err(format!("panic: {}", p)),
+        };
+        calls += 1;
+        match so.res {
+            Ok(_) => out.extend_from_slice(&so.out[0]),
+            Err(e) => return Err(e),
+        }
+        if so.fed == 0 && so.out[0].is_empty() && calls > 100_000 {
+            break;
+        }
+    }
+    Ok(out)
+}
+
+/// like `stream`, every call with buffers longer than required: input slices carry up to `slack_max`
+/// further frames (NaN poison, a caller's look-ahead data in real use), output buffers up to 17
+fn stream_slack<T: Smp>(run: &mut Runner<T>, n_in: u64, rng: &mut Rng, slack_max: usize, max_calls: usize) -> Result<Vec<T>, String> {
+    let mut out: Vec<T> = Vec::new();
+    let mut calls = 0;
+    while run.pos < n_in && calls < max_calls {
+        let op = Op::Proc { path: Path::Slack, slack_in: if rng.chance(0.2) { 0 } else { rng.ui(1, slack_max.max(1)) }, slack_out: rng.ui(0, 17), mask: None, empty_inactive: false };
+        let so = match crate::mon::guarded(|| run.step(&op)) {
+            Ok(so) => so,
+            Err(p) => return Err(format!("panic: {}", p)),
+        };
         calls += 1;
         match so.res {
             Ok(_) => out.extend_from_slice(&so.out[0]),
@@ -93,6 +119,8 @@ enum TwinKind {
     FftSameBlock,
     /// FixedIn with stepped ratio changes at its chunk boundaries vs FixedOut(chunk 1) switching at the same output frame
     RatioSteps,
+    /// the same instance configuration fed from exactly sized buffers vs from longer ones
+    SlackBuffers,
 }
 
 impl Chunking {
@@ -104,7 +132,9 @@ impl Chunking {
         a.channels = 1;
         let mut b = a.clone();
         let twin;
-        if a.kind.is_async() {
+        if rng.chance(0.12) {
+            twin = TwinKind::SlackBuffers;
+        } else if a.kind.is_async() {
             let opts: &[TwinKind] = if a.kind.is_sinc() { &[TwinKind::ChunkSizes, TwinKind::InVsOut, TwinKind::Schedule, TwinKind::RatioSteps] } else { &[TwinKind::ChunkSizes, TwinKind::InVsOut, TwinKind::RatioSteps] };
             twin = if a.max_rel > 1.05 { *rng.pick(opts) } else { *rng.pick(&opts[..opts.len() - 1]) };
             match twin {
@@ -212,9 +242,20 @@ impl Chunking {
             return self.ratio_steps(&mut cr, st, &a, &b, ra, rb, n_in.min(12_000), &mut srng);
         }
         let oa = stream(&mut ra, n_in, None, 2_000_000);
-        let ob = stream(&mut rb, n_in, if twin == TwinKind::Schedule { Some(&mut srng) } else { None }, 2_000_000);
+        let ob = if twin == TwinKind::SlackBuffers {
+            // up to two further FFT blocks / chunks of look-ahead in the input slices
+            let extra = if b.kind.is_fft() { 2 * b.fft_sizes().0 + 8 } else { 2 * b.chunk + 8 };
+            stream_slack(&mut rb, n_in, &mut srng, extra.min(20_000), 2_000_000)
+        } else {
+            stream(&mut rb, n_in, if twin == TwinKind::Schedule { Some(&mut srng) } else { None }, 2_000_000)
+        };
         let (oa, ob) = match (oa, ob) {
             (Ok(x), Ok(y)) => (x, y),
+            (Ok(_), Err(e)) | (Err(e), Ok(_)) if !e.contains("Tried to use sinc subindex") => {
+                // the same stream completes under one chunking / buffer sizing and fails under the other
+                cr.viols.push(Viol::new("C05", "fails_under_one_chunking", format!("twin {:?}: one run completed, the other ended with {}", twin, e)));
+                return cr;
+            }
             (x, y) => {
                 cr.inconclusive = Some(format!("processing error {:?} {:?}", x.err(), y.err()));
                 return cr;
@@ -327,7 +368,7 @@ impl Chunking {
         if ra.findings.iter().chain(rb.findings.iter()).any(|f| f.prop == "C03") && cr.viols.is_empty() {
             cr.inconclusive = Some("C03 event".into());
         }
-        cr.class = if compared > 0 && (a.chunk != b.chunk || a.kind != b.kind || twin == TwinKind::Schedule || a.sub_chunks != b.sub_chunks) {
+        cr.class = if compared > 0 && (a.chunk != b.chunk || a.kind != b.kind || twin == TwinKind::Schedule || twin == TwinKind::SlackBuffers || a.sub_chunks != b.sub_chunks) {
             Some(format!("{}|{:?}|{}|{}", T::NAME, twin, a.class(), b.class()))
         } else {
             None
@@ -464,6 +505,19 @@ impl Acct {
         let sched = cfg.kind.is_sinc() && rng.chance(0.4);
         // 10 %: reset() somewhere in the stream; the accounting restarts with the stream
         let reset_at: Option<u64> = if rng.chance(0.1) { Some(rng.logi(1, 5000) as u64) } else { None };
+        // 15 % of the adjustable cases: the stream starts at original*x1 (relative setter), runs a while, then
+        // moves to original*x2 by a second relative call (no ramp); the accounting restarts at the step and
+        // must hold at the ratio the documentation promises, original*x2 (relative factors do not compound)
+        let detour: Option<(u64, f64, f64)> = if cfg.kind.is_async() && cfg.max_rel > 1.0 && pre_ratio.is_none() && reset_at.is_none() && rng.chance(0.15) {
+            let lo = (1.0 / cfg.max_rel).max(0.25);
+            let hi = cfg.max_rel.min(4.0);
+            Some((rng.logi(1, 400) as u64, rng.uf(lo, hi), if rng.chance(0.3) { 1.0 } else { rng.uf(lo, hi) }))
+        } else {
+            None
+        };
+        // 15 %: the stream is driven through the allocating wrappers (process / process_partial), frames
+        // counted as the lengths of the returned vectors
+        let wrappers = rng.chance(0.15);
         // marathons: a slow drift (a fraction of a frame lost per call) only crosses the constant after
         // ~1e5..1e6 calls, and only when the constant is small (short filter)
         let marathon = rng.chance(0.12);
@@ -496,6 +550,8 @@ impl Acct {
             .with("set_ratio_before_first_call", pre_ratio.map(J::f).unwrap_or(J::Null))
             .with("set_chunk_size_schedule", J::b(sched))
             .with("reset_after_calls", reset_at.map(|x| J::Int(x as i128)).unwrap_or(J::Null))
+            .with("relative_ratio_detour_calls_x1_x2", detour.map(|d| J::Arr(vec![J::Int(d.0 as i128), J::f(d.1), J::f(d.2)])).unwrap_or(J::Null))
+            .with("through_allocating_wrappers", J::b(wrappers))
             .with("frames_budget", J::Int(frames_budget as i128));
         set_desc(&desc);
         let mut cr = CaseResult { desc, ..Default::default() };
@@ -515,13 +571,20 @@ impl Acct {
                 return cr;
             }
         }
-        let ratio = pre_ratio.unwrap_or(cfg.ratio);
+        let mut ratio = pre_ratio.unwrap_or(cfg.ratio);
+        if let Some((_, x1, _)) = detour {
+            if r.set_resample_ratio_relative(x1, false).is_err() {
+                cr.inconclusive = Some("in-range relative ratio rejected (C12)".into());
+                return cr;
+            }
+            ratio = cfg.ratio * x1;
+        }
         let wi = r.input_buffer_allocate(true);
         let mut wo = r.output_buffer_allocate(true);
         let (mut tin, mut tout) = (0u64, 0u64);
         let mut calls = 0u64;
         let l = cfg.flen() as f64;
-        let bound = ratio * (l + 1.0 / ratio + 3.0) + 3.0;
+        let mut bound = ratio * (l + 1.0 / ratio + 3.0) + 3.0;
         let (fi, fo) = cfg.fft_sizes();
         if cfg.kind == Kind::FftInOut {
             // block sizes: in = smallest multiple of fs_in/gcd >= requested chunk, in*fs_out == out*fs_in
@@ -556,6 +619,23 @@ impl Acct {
                 calls_at_restart = calls;
                 st.add("streams_restarted_by_reset", 1.0);
             }
+            if let Some((at, _, x2)) = detour {
+                if calls == at {
+                    if r.set_resample_ratio_relative(x2, false).is_err() {
+                        cr.inconclusive = Some("in-range relative ratio rejected (C12)".into());
+                        break;
+                    }
+                    // what is buffered at the step was bounded by the old constant; the new stretch adds its own
+                    let r2 = cfg.ratio * x2;
+                    bound += r2 * (l + 1.0 / r2 + 3.0) + 3.0;
+                    ratio = r2;
+                    tin = 0;
+                    tout = 0;
+                    env.clear();
+                    calls_at_restart = calls;
+                    st.add("relative_ratio_detours", 1.0);
+                }
+            }
             if sched && rng.chance(0.2) {
                 let n = match rng.ui(0, 3) {
                     0 => 1,
@@ -564,7 +644,15 @@ impl Acct {
                 };
                 let _ = r.set_chunk_size(n);
             }
-            let (i, o) = match r.process_into_buffer(&wi, &mut wo, None) {
+            let res = if wrappers {
+                let n = r.input_frames_next();
+                let wv: Vec<&[T]> = wi.iter().map(|c| &c[..n]).collect();
+                let rr = if calls % 2 == 0 { r.process(&wv, None) } else { r.process_partial(Some(&wv), None) };
+                rr.map(|v| (n, v.first().map(|c| c.len()).unwrap_or(0)))
+            } else {
+                r.process_into_buffer(&wi, &mut wo, None)
+            };
+            let (i, o) = match res {
                 Ok(x) => x,
                 Err(e) => {
                     cr.inconclusive = Some(format!("processing error with allocate-time buffers (C03/C04): {}", crate::any::err_repr(&e)));
@@ -609,6 +697,26 @@ impl Acct {
                         "sync_accounting",
                         format!("after {} calls: in {} * fs_out {} - out {} * fs_in {} = {} (must be {} )", calls, tin, cfg.fs_out, tout, cfg.fs_in, lhs, if cfg.kind == Kind::FftInOut { "0".to_string() } else { format!("in [0, {})", lim) }),
                     ));
+                    break;
+                }
+            }
+        }
+        // end of stream through process_partial(None): every flush call consumes input_frames_next() frames of
+        // silence and returns vectors whose length is the number of frames produced
+        if wrappers && cfg.kind.is_async() && cr.viols.is_empty() && cr.inconclusive.is_none() {
+            for k in 0..32 {
+                let n = r.input_frames_next();
+                match r.process_partial::<Vec<T>>(None, None) {
+                    Ok(v) => {
+                        tin += n as u64;
+                        tout += v.first().map(|c| c.len()).unwrap_or(0) as u64;
+                    }
+                    Err(_) => break,
+                }
+                st.add("flush_calls_accounted", 1.0);
+                let d = tout as f64 - ratio * tin as f64;
+                if d.abs() > bound {
+                    cr.viols.push(Viol::new("C07", "drift", format!("after {} calls and {} process_partial(None) flush calls: total out {} - ratio {} * total in {} = {} exceeds the constant {:.2}", calls, k + 1, tout, ratio, tin, d, bound)));
                     break;
                 }
             }
